@@ -686,17 +686,24 @@ theorem cloneNode_cov {allow : Bool} {rec : Nat → M Nat}
   abind ((CGoodAt.ofQuiet hK4 (copyMeta_sim ns.mstore hK4.k) (copyMeta_quiet _ _)).toA (hc3.trans hc4))
     with me s5 hK5 hl5 hc5 hme
   abind ((cloneOutputs_cov ns.outputs 0 s5 hK5).toA (hc3.trans (hc4.trans hc5))) with outs s6 hK6 hl6 hc6 houts
-  abind (allocNode_covA _ hK6 havoid) with n' s8 hK8 hl8 hc8 hn'
-  have hc28 : CovLe s2 s8 := hc3.trans (hc4.trans (hc5.trans (hc6.trans hc8)))
+  abind ((CGoodAt.ofQuiet hK6 (SGoodAt.getVm hK6.k) QuietAt.getVm).toA (hc3.trans (hc4.trans (hc5.trans hc6))))
+    with vm s7 hK7 hl7 hc7 hq7
+  obtain ⟨rfl, rfl⟩ := hq7
+  abind ((CGoodAt.ofQuiet hK7 (SGoodAt.bookkeeping (m := checkSpecs allow ns s7.vm) hK7.k
+    (fun s => by rw [checkSpecs_state]; exact ⟨rfl, rfl⟩))
+    (by unfold QuietAt; rw [checkSpecs_state]; exact ⟨rfl, rfl, rfl, fun _ ns h => .inl ⟨ns, h⟩⟩)).toA
+    (hc3.trans (hc4.trans (hc5.trans hc6)))) with u0 s7' hK7' hl7' hc7' hq7'
+  abind (allocNode_covA _ hK7' havoid) with n' s8 hK8 hl8 hc8 hn'
+  have hc28 : CovLe s2 s8 := hc3.trans (hc4.trans (hc5.trans (hc6.trans (hc7'.trans hc8))))
   abind ((forM'_quiet_cov outs hK8 (fun v _ s9 hK9 => setProducer_sim n' v hK9)
     (fun v s9 => setProducer_quiet n' v s9)).ext.toA hc28) with u s9 hK9 hl9 hc9 hq9
   abind (((CGoodAt.ofQuiet hK9 (addUses_sim n' ins 0 s9 hK9.k) (addUses_quiet n' ins 0 s9)).ext).toA
     (hc28.trans hc9)) with u2 s10 hK10 hl10 hc10 hq10
-  have l2 : CoreLe s2.w s10.w := hl3.trans (hl4.trans (hl5.trans (hl6.trans (hl8.trans (hl9.trans hl10)))))
-  have l3 : CoreLe s3.w s10.w := hl4.trans (hl5.trans (hl6.trans (hl8.trans (hl9.trans hl10))))
-  have l4 : CoreLe s4.w s10.w := hl5.trans (hl6.trans (hl8.trans (hl9.trans hl10)))
-  have l5 : CoreLe s5.w s10.w := hl6.trans (hl8.trans (hl9.trans hl10))
-  have l7 : CoreLe s6.w s10.w := hl8.trans (hl9.trans hl10)
+  have l2 : CoreLe s2.w s10.w := hl3.trans (hl4.trans (hl5.trans (hl6.trans (hl7'.trans (hl8.trans (hl9.trans hl10))))))
+  have l3 : CoreLe s3.w s10.w := hl4.trans (hl5.trans (hl6.trans (hl7'.trans (hl8.trans (hl9.trans hl10)))))
+  have l4 : CoreLe s4.w s10.w := hl5.trans (hl6.trans (hl7'.trans (hl8.trans (hl9.trans hl10))))
+  have l5 : CoreLe s5.w s10.w := hl6.trans (hl7'.trans (hl8.trans (hl9.trans hl10)))
+  have l7 : CoreLe s7.w s10.w := hl7'.trans (hl8.trans (hl9.trans hl10))
   have l8 : CoreLe s8.w s10.w := hl9.trans hl10
   have hattrs' : All2 (AttrSim s10.w) ns.attrs attrs :=
     All2.mono (R := fun (ka : String × Nat) r => AttrSim s3.w ka r) (fun _ _ h => AttrSim.mono l3 h) hattrs
@@ -704,8 +711,9 @@ theorem cloneNode_cov {allow : Bool} {rec : Nat → M Nat}
   refine CGoodAtA.pure hK10 ⟨NodeSim.mk n n' _ _ attrs (cNode_mono l2 (cNode_of hns))
     (cNode_mono l8 (cNode_ofCore hn'.1)) rfl rfl rfl rfl rfl rfl
     (All2.mono (fun _ _ h => RefSim.mono l2 h) hins) (All2.mono (fun _ _ h => ValSim.mono l7 h) houts)
-    (attrsSim_of_all2 hattrs') rfl ?_ ?_ (remapDev_simP (ioMap_pairs
-      (All2.mono (fun _ _ h => RefSim.mono l2 h) hins) (All2.mono (fun _ _ h => ValSim.mono l7 h) houts)) ns.dev), hmem⟩
+    (attrsSim_of_all2 hattrs') rfl ?_ ?_ (remapDev_simP (pairsSim_append (ioMap_pairs
+      (All2.mono (fun _ _ h => RefSim.mono l2 h) hins) (All2.mono (fun _ _ h => ValSim.mono l7 h) houts))
+      (fun p hp => .inr ((hK7.k p hp).mono l7))) ns.dev), hmem⟩
   · obtain ⟨d, a, b⟩ := hpr
     exact ⟨d, _, cDict_mono l4 a, cDict_mono l4 b, rfl⟩
   · obtain ⟨d, a, b⟩ := hme
